@@ -89,7 +89,7 @@ def harness_bin(features_default=True):
 
 def run_e3(pid, step, tier, seed):
     t0 = time.time()
-    out = dict(name='e3:' + step['cmd'], kind='e3', bounded=True, inconclusive=[], failures=[], evaluations=0, distinct_nontrivial=0,
+    out = dict(name='e3:' + step['cmd'] + (':no-default-features' if step.get('no_default_features') else ''), kind='e3', bounded=True, inconclusive=[], failures=[], evaluations=0, distinct_nontrivial=0,
                exhaustive=False, bound=step.get('bound', ''), samples=[], assumptions=[], trusted=[])
     exe, err = harness_bin(not step.get('no_default_features'))
     if not exe:
@@ -105,7 +105,7 @@ def run_e3(pid, step, tier, seed):
         return out
     js = None
     for line in p.stdout.split('\n'):
-        if line.startswith('{"e3"'):
+        if line.startswith('{') and '"e3"' in line:
             try:
                 js = json.loads(line)
             except Exception:
@@ -116,7 +116,7 @@ def run_e3(pid, step, tier, seed):
         return out
     out.update(evaluations=js.get('evaluations', 0), distinct_nontrivial=js.get('nontrivial', 0), exhaustive=js.get('exhaustive', False),
                bound=js.get('bound', out['bound']), samples=js.get('samples', [])[:3])
-    if step.get('complete'):
+    if step.get('complete') or (step.get('complete_in_thorough') and tier == 'thorough' and js.get('exhaustive')):
         # complete enumeration of a finite domain on the real code is a proof, not a bounded stand-in
         out['bounded'] = False
         out['obligations'] = js.get('obligations', 1)
@@ -183,7 +183,7 @@ def run_step(pid, step, tier, seed):
 def replay(pid, path):
     rec = json.load(open(path))
     print('replay of %s: obligation %s' % (pid, rec.get('obligation')))
-    if rec.get('engine') == 'e3' and rec.get('failing_input') is not None:
+    if rec.get('failing_input') is not None and str(rec.get('step', '')).startswith('e3:'):
         exe, err = harness_bin(True)
         if not exe:
             print('harness build failed', err, file=sys.stderr)
